@@ -16,6 +16,11 @@ def nontrivial(h, ev):
     return R.has_fault(h)
 
 
+def long_ring_then_break(rng, exe):
+    h, ok = R.gen_long_ring(rng, exe)
+    return h + ["B 1", "C 1", "A 0 1"], ok
+
+
 def check(tier, seed):
     ck = V.Check(PROP, tier, seed)
     ck.trusted = V.std_trusted() + R.ROUTING_TRUSTED
@@ -50,7 +55,10 @@ def check(tier, seed):
 
     def vary(i, r):
         return {"big": i % 6 == 0, "liveness": False}
-    R.engine(ck, PROP, tier, seed, {"faults": True, "vary": vary}, ("C01",), 200, 10000, proof_ok, nontrivial, "", allow_tags=("F2a", "F2b"), project=("K",))
+    R.engine(ck, PROP, tier, seed, {"faults": True, "vary": vary}, ("C01",), 200, 10000, proof_ok, nontrivial, "", allow_tags=("F2a", "F2b"), project=("K",),
+             # a target that confirmed some tasks, then fell more than the id table's initial capacity behind (the table grows
+             # while wrapped), confirms watermarks in the middle of the backlog, and only then breaks and reconnects
+             extra_histories=lambda r, exe, tier: [long_ring_then_break(r.fork("ringb%d" % i), exe) for i in range(1 if tier == "quick" else 6)])
     return ck.finish(rule="histories with target-stream breaks / reconnections and source-stream restarts at arbitrary points between events; safe-ack monitor over all tasks ever received from a source "
                           "(across incarnations); a violation is classified F2a (the unconfirmed task was received before a break of its owner's stream), F2b (before a restart of the source stream) "
                           "or reported; non-trivial = history containing a break or restart")
